@@ -342,14 +342,35 @@ def replay(ctx, payload):
     info = json.loads(info)
     iface = info["iface"]
     iface["methods"] = [m for m in iface["methods"] if m["name"] == info["method"]]
-    if "fault" in info:
-        pkg = make_pkg("rp", iface, [], faults=[info["fault"]])
-    else:
-        pkg = make_pkg("rp", iface, [info["status"]], faults=[])
+    want = {k: v for k, v in info.items() if k != "iface"}
+    kw = dict(faults=[], logged=[], configured=[], redirect=None, retry=None)
+    sts = []
+    if "redirect" in info:
+        pol, first, second, b = info["redirect"]
+        kw["redirect"] = ([first], [second if pol == "follow" else 200], [b if pol == "follow" else "valid"])
+    elif "retry" in info:
+        kw["retry"] = {info["retry"][0]: [info["retry"][1]]}
+    elif "cfg" in info:
+        kw["configured"] = [(t, o, status_spec([info.get("status", 200)])) for t, o in CONFIGS if t == info["cfg"]]
+    elif "fault" in info and "logged" in info:
+        kw["logged"] = [l for l in LOGGED if l[0] == info["logged"]]
+    elif "fault" in info:
+        kw["faults"] = [info["fault"]]
+    elif "logged" not in info:
+        sts = [info["status"]]
+    pkg = make_pkg("rp", iface, sts, **kw)
     cases, impl, model = run_pkgs(ctx, [pkg])
+
+    def same(c):
+        got = {k: v for k, v in json.loads(c["cmd"]).items() if k != "iface"}
+        w = dict(want)
+        if "redirect" in w and w["redirect"][0] != "follow":
+            got.pop("location", None)
+            w.pop("location", None)
+        return got == w
     rc = 0
     for c in cases:
-        if "fault" not in info and c["body"] != info["body"]:
+        if not same(c):
             continue
         m = model[c["id"]]
         print("case :", c["sexp"])
